@@ -178,11 +178,24 @@ def run_task(P, task, prop, tier, out):
 
                             evs = [ev for ev in b.st.events if ev[0] == "function-globals"]
 
-                            def gg(s2, evs=evs):
+                            muts = [ev for ev in b.st.events if ev[0] == "globals-mutated"]
+                            goal_rec(out, prop, fnq, "ensures:module-namespace-unchanged", pj, what, b.st, z3.BoolVal(not muts), tier)
+
+                            def gg(s2, evs=evs, muts=muts):
                                 if len(evs) != 1:
                                     return z3.BoolVal(False)
                                 gv = evs[0][2]
                                 go = s2.obj(gv) if isinstance(gv, VObj) else None
+                                if go is None and isinstance(gv, VOpq) and gv.tag == "opaque-dict" and len(muts) == 1 and isinstance(muts[0][2], VObj) and isinstance(s2.obj(muts[0][2]), core.LDict):
+                                    # the live module namespace, updated in place with the shipped names
+                                    from .builtins_model import mget as _mget, mhas as _mhas
+
+                                    upd, base = s2.obj(muts[0][2]), gv.t
+                                    go = core.LDict(
+                                        lambda k: z3.Or(upd.present(k), z3.And(core.Key.is_KStr(k), _mhas(base, core.Key.ks(k)))),
+                                        lambda k: core.vite(upd.present(k), upd.val(k), VOpq(_mget(base, core.Key.ks(k)), "other")),
+                                        z3.IntVal(0),
+                                    )
                                 if not isinstance(go, core.LDict):
                                     return z3.BoolVal(False)
                                 k = z3.Const("sk.name", core.StrS)
